@@ -186,6 +186,8 @@ type mptSpec struct {
 	inline    func(f *ssa.Function) bool
 	target    func(in ssa.Instruction, st *PState, e *pathEngine) string
 	reqs      func(label string) []string // requirements per target label
+	check     func(label string, in ssa.Instruction, st *PState, e *pathEngine) string // custom requirement (instead of reqs)
+	desc      string                                                              // description of the custom requirement
 	minTarget int                         // minimal number of distinct target instructions (floor)
 }
 
@@ -209,7 +211,13 @@ func (c *ctx) mpt(s mptSpec) *PathResult {
 	}
 	pr := &PathRule{Fn: s.fn, Event: evCalls(s.events, extra...), Atom: s.atom, KillAtoms: s.kill, Resets: s.resets, Inline: s.inline, Target: s.target}
 	pr.At = func(label string, in ssa.Instruction, st *PState, e *pathEngine) string {
+		if s.check != nil {
+			return s.check(label, in, st, e)
+		}
 		return need(e, st, eidx, s.reqs(label)...)
+	}
+	if s.reqs == nil {
+		s.reqs = func(string) []string { return []string{s.desc} }
 	}
 	res := RunPath(c.p, pr)
 	c.r.Analysed["path_rules"]++
